@@ -857,12 +857,21 @@ def call_method(interp, recv, name, args, kwargs):
         if sep is not None and isinstance(maxsplit, int) and maxsplit == -1 and isinstance(sep, str) and sep != '':
             # all splits: a sequence of strings of unknown contents (weak model); its length is
             # count(sep) + 1 for a single-character separator, at least 1 otherwise
+            if len(sep) == 1 and name == 'split' and aligning(interp):
+                from . import mlist
+                return mlist.split_all(interp, t, sep)
             from .api import ListOf, Str as _Str
             out = ListOf(_Str, min_len=1).make(interp, 'split')
             if len(sep) == 1:
                 f = count_fn(interp, sep)
                 _count_facts(interp, f, sep, t)
                 interp.st.assume(out.length == f(t) + 1)
+            return out
+        if sep is None and isinstance(maxsplit, int) and maxsplit == -1 and aligning(interp):
+            # split at white space: a sequence of strings of unknown contents (weak model, sound)
+            from .api import ListOf, Str as _Str
+            out = ListOf(_Str).make(interp, 'wsplit')
+            interp.st.assume(z3.Implies(z3.Length(t) == 0, out.length == 0))
             return out
         if sep is None or maxsplit != 1:
             raise Unsupported('str.%s without separator or with maxsplit != 1' % name)
